@@ -8,7 +8,7 @@ use crate::json::{hex, unhex, J};
 use crate::mon::mon_run;
 use crate::par::par_chunks;
 use crate::refm::canon;
-use crate::report::{finish, Counts, Ctx, Tally, Tier, Viol};
+use crate::report::{finish, machinery, Counts, Ctx, Tally, Tier, Viol};
 use sml_rs::transport::{encode, encode_streaming, DecodeErr};
 use sml_rs::util::{Buffer, OutOfMemory};
 
@@ -575,12 +575,178 @@ fn c16_default_buffer(out: &mut Vec<Viol>, counts: &mut Counts) {
     }
 }
 
+// ------------------------------------------------------------------ allocation failure (C05 / C07)
+/// One scenario, run in a child process (`smlmc allocfail <k>`): the heap refuses every request of
+/// 4096 bytes or more while a Vec-backed buffer has to grow. The library must answer with its
+/// out-of-memory error value and stay usable; an infallible growth path ends in
+/// `handle_alloc_error`, i.e. the child is killed by SIGABRT, which the parent reports.
+/// Prints `OK ...` or `FINDING <class> :: <what>` lines.
+pub const ALLOCFAIL_SCENARIOS: [&str; 4] = ["encode::<Vec<u8>> of a 10000-byte payload", "Decoder::<Vec<u8>>::push_byte over a frame with a 10000-byte payload", "SmlReader::with_vec_buffer().from_slice over the same frame", "Buffer::extend_from_slice / push on a Vec<u8> directly"];
+pub fn allocfail_child(k: usize) {
+    use crate::alloc::with_failing_allocations;
+    let p: Vec<u8> = (0..10_000u32).map(|i| (i.wrapping_mul(2654435761) >> 24) as u8 | 1).collect();
+    let f = canon(&p);
+    let small = canon(&[0x42]);
+    let mut lines: Vec<String> = Vec::with_capacity(64);
+    match k {
+        0 => {
+            let (r, refused) = with_failing_allocations(4096, || encode::<Vec<u8>>(&p[..]).map(|v| v.len()));
+            match r {
+                Err(OutOfMemory) => lines.push(format!("OK encode reports OutOfMemory ({} requests refused)", refused)),
+                Ok(n) => lines.push(format!("FINDING C07 encode::<Vec> succeeds although the heap refused to grow the buffer :: returned {} bytes, {} requests refused", n, refused)),
+            }
+            match encode::<Vec<u8>>(&p[..]) {
+                Ok(v) if v == f => lines.push("OK encode works again once memory is available".into()),
+                other => lines.push(format!("FINDING C05 encode unusable after an allocation failure :: {:?}", other.map(|v| v.len()))),
+            }
+        }
+        1 => {
+            let mut d = sml_rs::transport::Decoder::<Vec<u8>>::new();
+            let mut first: Option<(usize, String)> = None;
+            let mut delivered_first = false;
+            let (_, refused) = with_failing_allocations(4096, || {
+                for (i, &b) in f.iter().enumerate() {
+                    match d.push_byte(b) {
+                        Ok(None) => {}
+                        Ok(Some(m)) => {
+                            delivered_first = m.len() == 10_000;
+                            if first.is_none() {
+                                first = Some((i, String::from("Ok(payload)")));
+                            }
+                        }
+                        Err(e) => {
+                            if first.is_none() {
+                                first = Some((i, match e {
+                                    sml_rs::transport::DecodeErr::OutOfMemory => String::from("OutOfMemory"),
+                                    _ => String::from("another error"),
+                                }));
+                            }
+                        }
+                    }
+                }
+            });
+            match &first {
+                Some((i, s)) if s == "OutOfMemory" => lines.push(format!("OK push_byte reports OutOfMemory at byte {} ({} requests refused)", i, refused)),
+                other => lines.push(format!("FINDING C05 the decoder does not report OutOfMemory when its Vec buffer cannot grow :: first result {:?}, payload delivered: {}, {} requests refused", other, delivered_first, refused)),
+            }
+            // memory is available again: the rest of the first frame was noise, the next frame must arrive
+            let mut got = false;
+            for &b in &small {
+                if let Ok(Some(m)) = d.push_byte(b) {
+                    got = m == [0x42];
+                }
+            }
+            if got {
+                lines.push("OK the decoder delivers the next frame afterwards".into());
+            } else {
+                lines.push("FINDING C05 the decoder is unusable after an allocation failure :: the following frame is not delivered".into());
+            }
+        }
+        2 => {
+            let mut stream = f.clone();
+            stream.extend_from_slice(&small);
+            let mut rd = sml_rs::SmlReader::with_vec_buffer().from_slice(&stream);
+            let (first, refused) = with_failing_allocations(4096, || match rd.next::<sml_rs::DecodedBytes>() {
+                Some(Err(sml_rs::transport::ReadDecodedError::DecodeErr(sml_rs::transport::DecodeErr::OutOfMemory))) => 0,
+                Some(Ok(_)) => 1,
+                Some(Err(_)) => 2,
+                None => 3,
+            });
+            if first == 0 {
+                lines.push(format!("OK the reader reports OutOfMemory ({} requests refused)", refused));
+            } else {
+                lines.push(format!("FINDING C05 the reader does not report OutOfMemory when its Vec buffer cannot grow :: outcome code {}, {} requests refused", first, refused));
+            }
+            let mut got = false;
+            for _ in 0..4 {
+                if let Some(Ok(m)) = rd.next::<sml_rs::DecodedBytes>() {
+                    got = m == [0x42];
+                }
+            }
+            if got {
+                lines.push("OK the reader delivers the next frame afterwards".into());
+            } else {
+                lines.push("FINDING C05 the reader is unusable after an allocation failure :: the following frame is not delivered".into());
+            }
+        }
+        _ => {
+            use sml_rs::util::Buffer;
+            let mut v: Vec<u8> = Vec::new();
+            let chunk = [0x55u8; 1000];
+            let (r, refused) = with_failing_allocations(4096, || {
+                let mut res = vec![];
+                for _ in 0..8 {
+                    res.push(Buffer::extend_from_slice(&mut v, &chunk).is_ok());
+                }
+                for _ in 0..5000 {
+                    if Buffer::push(&mut v, 1).is_err() {
+                        res.push(false);
+                        break;
+                    }
+                }
+                res
+            });
+            if r.contains(&false) && v.len() < 8192 && v.iter().all(|&b| b == 0x55 || b == 1) {
+                lines.push(format!("OK Vec as Buffer answers OutOfMemory and keeps its {} bytes ({} requests refused)", v.len(), refused));
+            } else {
+                lines.push(format!("FINDING C05 Vec as Buffer does not answer OutOfMemory when it cannot grow :: results {:?}, length {}", &r[..r.len().min(10)], v.len()));
+            }
+        }
+    }
+    for l in lines {
+        println!("{}", l);
+    }
+}
+/// Parent side: runs every scenario in a child process and turns its fate into findings.
+pub fn allocfail_findings(report: &[&str], counts: &mut Counts) -> Vec<Viol> {
+    let mut out = vec![];
+    let exe = match std::env::current_exe() {
+        Ok(e) => e,
+        Err(e) => machinery(&format!("allocation-failure scenarios: current_exe: {}", e)),
+    };
+    for k in 0..ALLOCFAIL_SCENARIOS.len() {
+        let o = match std::process::Command::new(&exe).arg("allocfail").arg(k.to_string()).output() {
+            Ok(o) => o,
+            Err(e) => machinery(&format!("allocation-failure scenarios: cannot start the child process: {}", e)),
+        };
+        counts.inc("allocation-failure scenarios run in a child process");
+        let text = String::from_utf8_lossy(&o.stdout).to_string();
+        let mut found: Vec<(String, String)> = vec![];
+        if !o.status.success() {
+            use std::os::unix::process::ExitStatusExt;
+            found.push(("C05 an allocation failure aborts the process instead of being reported as an error value".into(), format!("{}: child ended with {:?} (signal {:?}); stderr: {}", ALLOCFAIL_SCENARIOS[k], o.status.code(), o.status.signal(), String::from_utf8_lossy(&o.stderr).lines().last().unwrap_or(""))));
+        }
+        let mut oks = 0;
+        for l in text.lines() {
+            if let Some(r) = l.strip_prefix("FINDING ") {
+                let (c, w) = r.split_once(" :: ").unwrap_or((r, ""));
+                found.push((c.to_string(), format!("{}: {}", ALLOCFAIL_SCENARIOS[k], w)));
+            } else if l.starts_with("OK ") {
+                oks += 1;
+            }
+        }
+        if found.is_empty() && oks == 0 {
+            machinery(&format!("allocation-failure scenario {} produced no verdict: {}", k, text));
+        }
+        for (class, what) in found {
+            if report.iter().any(|p| class.starts_with(p)) {
+                out.push(Viol { class, key: format!("allocfail:{}", k), what, case: J::obj().set("engine", "e2").set("check", "allocfail").set("scenario", k), size: k });
+            }
+        }
+    }
+    out
+}
+
 // ------------------------------------------------------------------ driver
 pub fn replay(case: &J) -> Vec<Viol> {
     let p = case.get("payload").and_then(|x| x.as_str()).and_then(unhex).unwrap_or_default();
     let mut out = vec![];
     let mut c = Counts::default();
     match case.get("check").and_then(|x| x.as_str()) {
+        Some("allocfail") => {
+            let k = case.get("scenario").and_then(|x| x.as_i()).unwrap_or(0) as usize;
+            return allocfail_findings(&["C05", "C07"], &mut c).into_iter().filter(|v| v.size == k).collect();
+        }
         Some("C07") => c07_payload(&p, &mut out, &mut c),
         Some("C07u") => c07_unbounded(&mut out, &mut c),
         Some("C05fe") => {
@@ -738,6 +904,13 @@ pub fn run(prop: &str, tier: Tier) -> ! {
         let mut out = vec![];
         c16_default_buffer(&mut out, &mut all.counts);
         for v in out {
+            all.tally.add(v);
+        }
+    }
+    if prop == "C07" {
+        // "reports out-of-memory exactly when the frame does not fit the buffer" for the growable
+        // buffer: the frame does not fit when the heap refuses to grow it
+        for v in allocfail_findings(&["C07", "C05"], &mut all.counts) {
             all.tally.add(v);
         }
     }
